@@ -103,15 +103,15 @@ package datatypes
 //@   mode math
 //@   props C10
 //@   requires its.ctx != nil && its.opID != nil
-//@   ensures[exports-identity] meta.Key == its.Key && meta.DUID == its.id && meta.TypeOf == its.TypeOf
-//@   ensures[exports-whole-opid] meta.OpID != nil && meta.OpID.Seq == its.opID.Seq && meta.OpID.Lamport == its.opID.Lamport && meta.OpID.Era == its.opID.Era && meta.OpID.CUID == its.opID.CUID
+//@   ensures-local[exports-identity] meta.Key == its.Key && meta.DUID == its.id && meta.TypeOf == its.TypeOf
+//@   ensures-local[exports-whole-opid] meta.OpID != nil && meta.OpID.Seq == its.opID.Seq && meta.OpID.Lamport == its.opID.Lamport && meta.OpID.Era == its.opID.Era && meta.OpID.CUID == its.opID.CUID
 //@   ensures[state-untouched] its.opID == old(its.opID) && its.opID.Seq == old(its.opID.Seq)
 //@   modifies G:lastMarshaled
 
 //@ func (*TransactionDatatype).ResetTransaction
 //@   mode math
 //@   props C09 C13
-//@   requires its.BaseDatatype != nil && its.BaseDatatype.Datatype != nil && its.BaseDatatype.ctx != nil
+//@   requires its.BaseDatatype != nil && its.BaseDatatype.Datatype != nil && its.BaseDatatype.ctx != nil && its.BaseDatatype.opID != nil
 //@   ensures[ops-cleared] result == nil ==> len(its.rollbackOps) == 0
 //@   ensures[error-changes-nothing] result != nil ==> len(its.rollbackOps) == old(len(its.rollbackOps))
 //@   modifies TransactionDatatype.rollbackSnapshot, TransactionDatatype.rollbackMeta, TransactionDatatype.rollbackOps, G:lastMarshaled
@@ -148,9 +148,9 @@ package datatypes
 //@   ghost-exit G.lastReceived := len(ops)
 //@   ensures[counted] G.receiveCalls == old(G.receiveCalls) + 1 && G.lastReceived == len(ops)
 //@   loop 0 invariant[ghost-untouched] G.receiveCalls == old(G.receiveCalls)
-//@   loop 0 invariant[units-so-far] i == 0 ==> G.execUnits == old(G.execUnits)
-//@   loop 0 invariant[first-unit-was-complete] i > 0 && len(ops) >= 1 && ops[0].OpType == model.TypeOfOperation_TRANSACTION ==> operations.announced(ops[0]) >= 1 && operations.announced(ops[0]) <= len(ops)
-//@   ensures[malformed-first-unit-applies-nothing] len(ops) >= 1 && ops[0].OpType == model.TypeOfOperation_TRANSACTION && (operations.announced(ops[0]) < 1 || operations.announced(ops[0]) > len(ops)) ==> result1 != nil && G.execUnits == old(G.execUnits)
+//@   loop 0 invariant[units-so-far] i == 0 ==> G.execUnits == old(G.execUnits) && (len(ops) >= 1 ==> ops[0].OpType == old(ops[0].OpType))
+//@   loop 0 invariant[first-unit-was-complete] i > 0 && len(ops) >= 1 && old(ops[0].OpType) == model.TypeOfOperation_TRANSACTION ==> operations.announced(ops[0]) >= 1 && operations.announced(ops[0]) <= len(ops)
+//@   ensures[malformed-first-unit-applies-nothing] len(ops) >= 1 && old(ops[0].OpType) == model.TypeOfOperation_TRANSACTION && (operations.announced(ops[0]) < 1 || operations.announced(ops[0]) > len(ops)) ==> result1 != nil && G.execUnits == old(G.execUnits)
 //@   loop 0 invariant[index-in-range] 0 <= i && i <= len(ops)
 //@   loop 0 decreases len(ops) - i
 //@   modifies *
